@@ -14,7 +14,7 @@ from ..util import Info, Raised, as_bytes, as_nibbles, cm_enter, cm_exit, expect
 
 ID = "C07"
 LEVEL = "fault_enumeration"
-BUDGET = {"quick": 8000, "thorough": 400000}
+BUDGET = {"quick": 8000, "thorough": 1200000}
 RULE = (
     "case = (trie built from 1-10 items with mostly >=32-byte values so nodes are hashed, "
     "a hidden subset of its hashed nodes (index list / all / all-but-root / only root), "
